@@ -349,6 +349,33 @@ func ruleGroupEntries(r *Run) {
 			}
 		}
 	}
+	// the sorting loop may live in a helper that receives the streams: sortStreams(result)
+	var sortVia *ssa.Call // the call in groupEntries that runs the helper
+	sortArg := -1
+	if sortLoop == nil {
+		for _, c := range callsIn(fn) {
+			cc, ok := c.(*ssa.Call)
+			h := staticCallee(c)
+			if !ok || h == nil || h.Blocks == nil || pkgOfFunc(h) != pkgOfFunc(fn) {
+				continue
+			}
+			for _, l := range rangeIndexLoops(h) {
+				for b := range l.Blocks {
+					for _, in := range b.Instrs {
+						if sc, ok := in.(*ssa.Call); ok {
+							if callee := sc.Common().StaticCallee(); callee != nil && (cname(callee) == "SortFunc" || callee.Origin() != nil && callee.Origin().Name() == "SortFunc") {
+								for k, hp := range h.Params {
+									if originValue(l.X) == ssa.Value(hp) {
+										sortLoop, sortCall, sortVia, sortArg = l, sc, cc, k
+									}
+								}
+							}
+						}
+					}
+				}
+			}
+		}
+	}
 	nSucc := 0
 	sgood := true
 	mapForm := false
@@ -376,15 +403,34 @@ func ruleGroupEntries(r *Run) {
 			os.Fail(r.pos(ret.Pos()), "success return yields %s, not the values of the stream map", describe(res, 0))
 			continue
 		}
-		if sortLoop == nil || sortLoop.X != ssa.Value(vc) {
-			sgood = false
-			os.Fail(r.pos(ret.Pos()), "no loop over the returned streams that sorts each stream's Values")
-			continue
-		}
-		if !sortLoop.Header.Dominates(ret.Block()) {
-			sgood = false
-			os.Fail(r.pos(ret.Pos()), "a success return is reachable without passing the sorting loop")
-			continue
+		if sortVia != nil {
+			if sortArg >= len(sortVia.Call.Args) || stripConv(sortVia.Call.Args[sortArg]) != ssa.Value(vc) {
+				sgood = false
+				os.Fail(r.pos(ret.Pos()), "no loop over the returned streams that sorts each stream's Values")
+				continue
+			}
+			helperOK := instrDominates(sortVia, ret)
+			for _, hr := range returnsOf(sortLoop.Header.Parent()) {
+				if !sortLoop.Header.Dominates(hr.Block()) {
+					helperOK = false
+				}
+			}
+			if !helperOK {
+				sgood = false
+				os.Fail(r.pos(ret.Pos()), "a success return is reachable without passing the sorting loop")
+				continue
+			}
+		} else {
+			if sortLoop == nil || sortLoop.X != ssa.Value(vc) {
+				sgood = false
+				os.Fail(r.pos(ret.Pos()), "no loop over the returned streams that sorts each stream's Values")
+				continue
+			}
+			if !sortLoop.Header.Dominates(ret.Block()) {
+				sgood = false
+				os.Fail(r.pos(ret.Pos()), "a success return is reachable without passing the sorting loop")
+				continue
+			}
 		}
 		if len(sortLoop.earlyExits()) > 0 {
 			sgood = false
